@@ -1,8 +1,8 @@
 META = {
  'manifest': {'text': 'Bounded symbolic model checking of value semantics and allocation balance for kll_sketch<int32> and quantiles_sketch<int32> (std::allocator): copy / move construction, copy / move / self assignment on sketches holding symbolic items: the copy equals the source (n, min, max, retained items and weights), is independent of later source updates and of the source\'s destruction, a moved-from sketch is assignable and destructible, every operator new block is released (runtime counter) and cbmc\'s pointer checks show no double free / use after free on the real code. update_theta_sketch copies are checked in C01 (op5).',
-              'note': 'two families, arithmetic items, std::allocator only; instrumented item types, custom stateful allocators and the remaining families are outside the claim'},
+              'note': 'two families with arithmetic items plus kll over an instrumented item type (live-object ledger), std::allocator only; custom stateful allocators and the remaining families are outside the claim'},
  'functions_encoded': ['kll_sketch copy/move ctor, operator=(const&), operator=(&&), dtor, update, iterators', 'quantiles_sketch copy/move ctor, assignments, dtor'],
- 'bounds': 'k minimum (kll 8, classic 2), <= 3 symbolic items before the script, 5 scripts',
+ 'bounds': 'k minimum (kll 8, classic 2), <= 3 symbolic items before the script, 5 scripts; instrumented-item kll: 9+9 items (both past exact mode), merge by reference / by move, copy + assign',
  'stubs': ['random_utils::random_bit -> nondeterministic coin'], 'assumes': [], 'outside': ['non-trivial item types (strings, instrumented)', 'user allocators with size-matching ledger', 'theta/tuple/HLL/CPC/var_opt/EBPPS/REQ/FI/Bloom lifecycles'],
 }
 def queries(tier):
@@ -13,4 +13,15 @@ def queries(tier):
                 qs.append(Q(f'{fam}_script{script}_a{na}', 'quant', 'c19_life.c', defs={'FAM': fam, 'KK': k, 'NA': na, 'SCRIPT': script}, unwind=12,
                             unwindset={'^(harness|take|same|verif_mem.*|verif_new.*)$': 40}, timeout=(300 if tier == 'quick' else 1500), native_vectors=100,
                             c_defs={'VERIF_NEW_CAPN': 64, 'VERIF_VEC_CAP': 32}, mem_gb=(10 if tier == 'quick' else 28)))
+    # instrumented item type: constructed / destroyed exactly once, also through merges of sketches past exact mode
+    for (na, nb, script, ns) in [(3, 2, 0, 1), (9, 9, 0, 1), (9, 9, 1, 1), (9, 3, 2, 1)] + ([(13, 9, 0, 1), (9, 12, 0, 2)] if tier == 'thorough' else []):
+        qs.append(Q(f'klli_a{na}_b{nb}_script{script}', 'kll_items', 'c19_kll_items.c', defs={'NA': na, 'NB': nb, 'SCRIPT': script, 'NSYM': ns}, unwind=max(na, nb) + 6,
+                    unwindset={'^(harness|verif_mem.*|verif_new.*)$': 40}, timeout=(400 if tier == 'quick' else 1800), native_vectors=100,
+                    c_defs={'VERIF_NEW_CAPN': 64, 'VERIF_VEC_CAP': 32}, mem_gb=(16 if tier == 'quick' else 28)))
+    # var_opt over the instrumented item type, incl. assignment onto a sketch that has left warm-up
+    # (past warm-up, NA > k, symex of the heap / reservoir transition with random draws did not finish: only warm-up shapes)
+    for (na, nb, script) in [(1, 1, 0), (2, 1, 0), (2, 1, 1), (2, 0, 2), (2, 0, 3)]:
+        qs.append(Q(f'voi_a{na}_b{nb}_script{script}', 'varopt_items', 'c19_vo_items.c', defs={'NA': na, 'NB': nb, 'SCRIPT': script}, tu_defs={'__OPT': '-O1 -fno-pic'}, unwind=12,
+                    unwindset={'^(harness|verif_mem.*|verif_new.*)$': 40}, timeout=(400 if tier == 'quick' else 1800), native_vectors=100,
+                    c_defs={'VERIF_NEW_CAPN': 40}, mem_gb=(16 if tier == 'quick' else 28)))
     return qs
